@@ -38,6 +38,12 @@ DataStep(s, ev) ==
 
 EvalStep(s, ev) ==
   IF ~s.dataOK THEN R(s, {}, {})
+  ELSE IF s.algo = "LMNN" /\ ev.light
+  \* a LARGE training set (hundreds of samples, tens of thousands of hinge terms): the objective value only
+  THEN LET v == LMNNValue(ev.L, s.X, s.y, s.targets, s.reg)
+       IN R([s EXCEPT !.evals = Append(s.evals, <<ev.L, v>>)],
+            G("C10.lmnn_value_is_documented_objective", CloseVal(ev.value, v)),
+            {"C10.lmnn_value_is_documented_objective"})
   ELSE IF s.algo = "LMNN"
   THEN LET v == LMNNValue(ev.L, s.X, s.y, s.targets, s.reg)
            g == LMNNGrad(ev.L, s.X, s.y, s.targets, s.reg)
